@@ -13,4 +13,12 @@ CHECKS = {
         text="Every point of the alphabet is executed on the real functions; round trip, positivity, bounded monotonicity, end points, bit-agreement of the two copies and of scalar/array call forms are checked at each. A coverage statement over the alphabet, not a proof between points.",
         note="trusts numpy arithmetic; nothing is claimed between alphabet points",
     ),
+    "C12": dict(
+        engine="E1-lattice",
+        level="exploration",
+        design_ref="DESIGN.md §3 C12",
+        technique="bounded exhaustive enumeration: full product of batch sizes x spectral indices (incl. exactly 1) x bound pairs x underlying uniform numbers (edges of [0,1] and interior grid) fed through an owned RNG; independent log-space reference CDF",
+        text="Every (N, index, bounds, t) tuple of the alphabet is run through Spectra.__call__ with the RNG owned by the harness; bounds (no tolerance), F_ref(logE)=u, monotonicity in u, normalisation product and mono exactness are checked at each point.",
+        note="RNG owned through numpy's legacy global functions; reference CDF is independent (expm1 form); nothing is claimed between alphabet points",
+    ),
 }
